@@ -1,6 +1,7 @@
 package aesgcmsiv
 
 import (
+	tinkpb "github.com/tink-crypto/tink-go/v2/proto/tink_go_proto"
 	"github.com/tink-crypto/tink-go/v2/insecuresecretdataaccess"
 	internalaead "github.com/tink-crypto/tink-go/v2/internal/aead"
 	"github.com/tink-crypto/tink-go/v2/internal/verifh"
@@ -66,4 +67,20 @@ func VerifH_c19_aesgcmsiv() {
 	internalaead.VerifDotSummary()
 	a, _, _ := build()
 	verifh.CheckAEADNoWrite(a)
+}
+
+func VerifH_serial_aesgcmsiv() {
+	kind := verifrt.Choice("variant", 3)
+	v := [...]Variant{VariantTink, VariantCrunchy, VariantNoPrefix}[kind]
+	pk := kind
+	ks := [...]int{16, 32}[verifrt.Choice("ks", 2)]
+	id := verifrt.Uint32("id")
+	if kind == 2 {
+		id, pk = 0, 3
+	}
+	params, err := NewParameters(ks, v)
+	verifrt.Assert(err == nil, "NewParameters")
+	k, err := NewKey(secretdata.NewBytesFromData(verifrt.Bytes("key", ks), insecuresecretdataaccess.Token{}), id, params)
+	verifrt.Assert(err == nil, "NewKey")
+	verifh.CheckKeyRoundTrip(k, &keySerializer{}, &keyParser{}, &parametersSerializer{}, &parametersParser{}, pk, id, typeURL, tinkpb.KeyData_SYMMETRIC)
 }
